@@ -104,6 +104,7 @@ func verifReach(tag string)          {}
 func verifYield()                    { runtime.Gosched() }
 func verifObserve(key string, v any) {}
 func verifDaemon()                   {}
+func verifDormant()                  { runtime.Gosched() }
 func verifNumGoroutinesBlocked() int { return 0 }
 func verifEncode(v any, n int) []byte { return bencode.MustMarshal(v) }
 func verifEventCount(kind string) int { return 0 }
